@@ -411,6 +411,15 @@ def lendLine (pol : Policy) (s : LState) (toks : List String) : LState × String
     match parseHC h c, v.toNat? with
     | some (h, c), some v => run (.set h c v)
     | _, _ => (s, "bad parse")
+  | ["threaduse", h, c] =>
+    match parseHC h c with
+    | some (h, c) =>
+      let (s', o) := lstep pol s (.pinUse h c)
+      (s', (match o with | .unit => "ok entered=bool:t" | .err _ => "ok entered=bool:f" | o => showLOut o) ++ " | " ++ flags s')
+    | none => (s, "bad parse")
+  | ["threadjoin"] =>
+    let (s', o) := lstep pol s .unpinUse
+    (s', (match o with | .val v => s!"ok int:{v}" | o => showLOut o) ++ " | " ++ flags s')
   | ["derive", h, c, k] =>
     match parseHC h c, kindOf k with
     | some (h, c), some k => run (.derive h c k)
